@@ -85,7 +85,7 @@ static void gen_trigger(int trig, int full) {
         int variants = 1;
         casing(tok, "chunked", tk);
         CT.trig = trig; CT.must_set = 0; CT.must_clear = 0; CT.expect_chunked = 0;
-        if (trig == T_CL_UNPARSEABLE) variants = 4; else if (trig == T_TE_UNSUPPORTED) variants = 3; else if (trig == T_HOSTH_INVALID || trig == T_HOSTU_INVALID) variants = 8; else if (trig == T_TE_CL) variants = 3;
+        if (trig == T_CL_UNPARSEABLE) variants = 4; else if (trig == T_TE_UNSUPPORTED) variants = 3; else if (trig == T_HOSTH_INVALID || trig == T_HOSTU_INVALID) variants = 8; else if (trig == T_TE_CL) variants = 5;
         for (int v = 0; v < variants; v++) {
             nl = 0; reqline = "POST /p HTTP/1.1\r\n"; body = "abc"; host = "h.example";
             casing(nm, "Host", nc);
@@ -94,7 +94,9 @@ static void gen_trigger(int trig, int full) {
             switch (trig) {
                 case T_NONE: casing(nm2, "Content-Length", nc); snprintf(L[nl++].text, 96, "%s:%s3%s\r\n", nm2, OWS[o1], OWS[o2]); CT.must_clear = ALLF; break;
                 case T_TE_CL: casing(nm2, "Transfer-Encoding", nc);
-                    if (v == 0) snprintf(L[nl++].text, 96, "%s:%s%s%s\r\n", nm2, OWS[o1], tok, OWS[o2]); else if (v == 1) snprintf(L[nl++].text, 96, "%s:%sgzip, %s%s\r\n", nm2, OWS[o1], tok, OWS[o2]); else snprintf(L[nl++].text, 96, "%s:%s%s ,%s\r\n", nm2, OWS[o1], tok, OWS[o2]);
+                    if (v == 0) snprintf(L[nl++].text, 96, "%s:%s%s%s\r\n", nm2, OWS[o1], tok, OWS[o2]); else if (v == 1) snprintf(L[nl++].text, 96, "%s:%sgzip, %s%s\r\n", nm2, OWS[o1], tok, OWS[o2]); else if (v == 2) snprintf(L[nl++].text, 96, "%s:%s%s ,%s\r\n", nm2, OWS[o1], tok, OWS[o2]);
+                    /* folded field value (obs-fold): the coding name arrives on the continuation line */
+                    else if (v == 3) snprintf(L[nl++].text, 96, "%s:%s\r\n %s%s\r\n", nm2, OWS[o1], tok, OWS[o2]); else snprintf(L[nl++].text, 96, "%s:%sgzip,\r\n\t%s%s\r\n", nm2, OWS[o1], tok, OWS[o2]);
                     casing(nm2, "Content-Length", nc); snprintf(L[nl++].text, 96, "%s:%s3%s\r\n", nm2, OWS[o2], OWS[o1]); body = CHUNKBODY; CT.must_set = HTP_REQUEST_SMUGGLING; CT.expect_chunked = 1; break;
                 case T_CL_TWICE_SAME: casing(nm2, "Content-Length", nc); snprintf(L[nl++].text, 96, "%s:%s3%s\r\n", nm2, OWS[o1], OWS[o2]); snprintf(L[nl++].text, 96, "%s:%s3%s\r\n", nm2, OWS[o2], OWS[o1]); CT.must_set = HTP_REQUEST_SMUGGLING; break;
                 case T_CL_TWICE_DIFF: casing(nm2, "Content-Length", nc); snprintf(L[nl++].text, 96, "%s:%s3%s\r\n", nm2, OWS[o1], OWS[o2]); snprintf(L[nl++].text, 96, "%s:%s4%s\r\n", nm2, OWS[o2], OWS[o1]); CT.must_set = HTP_REQUEST_SMUGGLING; break;
